@@ -77,6 +77,34 @@ def rule_level_table(ctx, prefix, fi):
               "another level", key="level-table", where=loc(fi, keep[0][0]) if keep else None, semantic=True)
 
 
+def rule_lib_pitfall(ctx, prefix, fi):
+    """library calls whose *result shape or content depends on the data* in a way element-wise code does not:
+      np.loadtxt / np.genfromtxt without ndmin=2   one row or one column is squeezed to 1-D (a level with one box, a
+                                                   plotfile with one field); np.atleast_2d afterwards restores the
+                                                   rank but not the orientation
+      filter(None, ...)                            drops every falsy element, the index 0 included
+    (library knowledge encoded here; base rate 0 on the unchanged tree)"""
+    import ast
+    from .model import norm, walk_no_nested, loc
+    bad = []
+    for n in walk_no_nested(fi.node):
+        if not isinstance(n, ast.Call):
+            continue
+        f = norm(n.func)
+        if f.split(".")[-1] in ("loadtxt", "genfromtxt"):
+            nd = [k for k in n.keywords if k.arg == "ndmin"]
+            if not (nd and isinstance(nd[0].value, ast.Constant) and nd[0].value.value == 2):
+                bad.append((n, f"`{norm(n)[:70]}` has no ndmin=2: a table of one row (one box) or one column (one field) "
+                               f"comes back 1-D, so per-box rows and per-field columns are paired wrongly or lost"))
+        if f == "filter" and n.args and isinstance(n.args[0], ast.Constant) and n.args[0].value is None:
+            bad.append((n, f"`{norm(n)[:70]}` drops every falsy element — a field index 0 (the first field of the "
+                           f"Header) is dropped together with the missing ones"))
+    ctx.check(not bad, f"{prefix}.LIB-PITFALL", fi.site,
+              "no data-dependent squeeze / falsy filtering in the table handling of this function",
+              "; ".join(m for _, m in bad[:2]), key="lib-pitfall", where=loc(fi, bad[0][0]) if bad else None,
+              semantic=True)
+
+
 def sweep(ctx):
     if ctx.prop in NO_SWEEP:
         return
@@ -86,4 +114,5 @@ def sweep(ctx):
             continue
         loopstate.rule_loop_state(ctx, ctx.prop, fi)
         rule_level_table(ctx, ctx.prop, fi)
-    ctx.note("generic_lints", {"functions": len(fns), "lints": ["LOOP-STATE", "LEVEL-TABLE"]})
+        rule_lib_pitfall(ctx, ctx.prop, fi)
+    ctx.note("generic_lints", {"functions": len(fns), "lints": ["LOOP-STATE", "LEVEL-TABLE", "LIB-PITFALL"]})
